@@ -14,6 +14,7 @@ A = "alice@example.com"
 B = "bob@example.com"
 R1 = "sales@example.com"     # role mailbox, alice assigned
 R2 = "board@example.com"     # role mailbox, nobody / only bob assigned
+NEWHIRE = "newhire@example.com"
 
 FACTS = os.path.join(C.COQ, "Gen", "Facts.v")
 
@@ -21,7 +22,7 @@ EMPTY_FACTS = """(* translator failed: %s *)
 From Coq Require Import String List Bool.
 From Raven Require Import Model.ProtoFacts.
 Import ListNotations.
-Definition table : facts := mk_facts [] [] [] false false.
+Definition table : facts := mk_facts [] [] [] false false false.
 """
 
 
@@ -82,6 +83,7 @@ def setup_ops():
         {"op": "role_create", "email": R2},
         {"op": "role_assign", "user": A, "role": 1},
         {"op": "role_assign", "user": B, "role": 2},
+        {"op": "user_provision", "email": NEWHIRE},     # admin-provisioned: password not initialised, LOGIN must be refused
         {"op": "lmtp_open", "conn": "l1"},
         {"op": "send", "conn": "l1", "data": "LHLO x\r\n", "until": "lmtp:1"},
     ]
